@@ -25,7 +25,14 @@ import (
 	"verif/harness/core"
 )
 
-const asanCases = 150000
+// asanCases is the length of the ASan pass' case list (the first cases of the thorough list). C17_ASAN_CASES is a development
+// override used only to try the ASan driver quickly; registered commands never set it.
+var asanCases = func() int {
+	if v, err := strconv.Atoi(os.Getenv("C17_ASAN_CASES")); err == nil && v > 0 {
+		return v
+	}
+	return 150000
+}()
 
 func Check() *core.Check {
 	return &core.Check{
@@ -44,7 +51,7 @@ func Check() *core.Check {
 			"comparators are consistent (total preorders), so the stable sort result is unique; comparator call counts are not compared, only that its first call happens for length >= 2",
 			"%TypedArray%.prototype.toLocaleString: only the exception class and 'returns a string' are compared",
 			"arguments handed to a species constructor by subarray() on an already detached receiver are not compared (ES2021 vs ES2024 differ)",
-			"finite Numbers with |x| >= 2^63 are excluded while the C05 finding on toInt32/ToInteger for such values is open (exclHugeNumbers)",
+			"while the C05 finding on toInt32/ToInteger for |x| >= 2^63 is open (exclHugeNumbers): element values in the band [2^63, 2^85) are not generated, and a case in which a Number with 2^63 <= |x| < 2^85 is converted to an integer element type (e.g. buffer bytes reinterpreted through a float view) ends inconclusive at that step",
 			"the ASan pass (thorough) executes the first 150000 cases of the list in a separate -asan build; an ASan report or child death there is a violation",
 		},
 		Cases: func(tier string) int {
@@ -66,11 +73,7 @@ func Check() *core.Check {
 
 func materialise(c *core.Ctx) *Case {
 	if c.Index < 0 {
-		var cs Case
-		if err := json.Unmarshal([]byte(pinned[-c.Index-1]), &cs); err != nil {
-			panic("c17: bad pinned witness: " + err.Error())
-		}
-		return &cs
+		return cloneCase(&pinned[-c.Index-1])
 	}
 	return genCase(c)
 }
